@@ -112,6 +112,13 @@ CATALOGUE = {
     "extern_outside_unsafe": [
         ("statement", ["(println (labs -5))"], "extern fn labs(x: int) -> int\n"),
         ("in_return_expression", ["(println (c05_ext 1))"], "extern fn labs(x: int) -> int\nfn c05_ext(q: int) -> int {\n    return (labs q)\n}\n"),
+        # the position the type checker does check: an extern call that is a statement of its own
+        ("bare_statement", ["(labs -5)"], "extern fn labs(x: int) -> int\n"),
+        ("bare_statement_after_unsafe_block", ["unsafe { (labs 1) }", "(labs 2)"], "extern fn labs(x: int) -> int\n"),
+        ("bare_statement_after_unsafe_block_with_set", ["let mut c05_r: int = 0", "unsafe { set c05_r (labs 1) }", "(labs 2)"], "extern fn labs(x: int) -> int\n"),
+        ("bare_statement_after_unsafe_in_earlier_function", ["(labs 2)"],
+         "extern fn labs(x: int) -> int\nfn c05_u(q: int) -> int {\n    let mut r: int = 0\n    unsafe { set r (labs q) }\n    return r\n}\nshadow c05_u { assert true }\n"),
+        ("bare_statement_inside_nested_block_after_unsafe", ["unsafe { (labs 1) }", "if true {", "    (labs 2)", "}"], "extern fn labs(x: int) -> int\n"),
     ],
 }
 # operator typing matrix (specification 4.4-4.6, 8.4): every binary operator x every ordered pair of scalar operand
